@@ -7,7 +7,7 @@ from pyvc.native import NativeHarness as NH
 F = 'flax/core/scope.py'
 
 # --- type models --------------------------------------------------------------------------
-Name = opaque('Name', universe=['a', 'b', '__flax_internal_stub__', 'c'])
+Name = opaque('Name', universe=['a', 'ab', '__flax_internal_stub__', 'b'])    # 'a' / 'b' are substrings of 'ab' (a string filter is equality, not containment)
 
 
 class _DenyListView:
@@ -36,7 +36,7 @@ def _conc_filter(sp):
   return DenyList(_conc_filter(sp.deny))
 
 
-def _enum_filter(bound, names=('a', 'b')):
+def _enum_filter(bound, names=('a', 'ab')):     # 'a' is a substring of 'ab': a string filter means equality
   """All filters of DenyList-nesting depth <= bound over `names` (sets, lists, tuples are all
   FColl; the concrete container type is varied by the native harness)."""
   import itertools
@@ -166,7 +166,12 @@ group_collections = function(
       "forall(Int, lambda q: implies(0 <= q and q < _k and not mem(col_filter, _at(q)), exists(Int, lambda i: 0 <= i and i < len(remaining_cols) and remaining_cols[i] == _at(q))))",
     ]},
   bindings=GC_B, props=('C14', 'C05'),
-  native=NH('flax.core.scope', 'group_collections', call=lambda fn, c: fn(c['xs'], [Filter.concretise(f) for f in c['col_filters']]) if False else fn(c['xs'], list(c['col_filters']))))
+  native=NH('flax.core.scope', 'group_collections', bound=3,
+            extra=[dict(xs={'a': 'tree0', 'ab': 'tree1'}, col_filters=fs) for fs in (
+              (ADTVal('FStr', s='a'), ADTVal('FStr', s='ab'), ADTVal('FBool', b=True)),
+              (ADTVal('FBool', b=True), ADTVal('FStr', s='ab'), ADTVal('FBool', b=True)),
+              (ADTVal('FColl', set=frozenset(['a'])), ADTVal('FBool', b=False), ADTVal('FColl', set=frozenset(['a', 'ab'])), ADTVal('FBool', b=True)))],
+            call=lambda fn, c: fn(c['xs'], [Filter.concretise(f) for f in c['col_filters']]) if False else fn(c['xs'], list(c['col_filters']))))
 group_collections.locals = {'groups': Groups, 'remaining_cols': SeqOf(Name), 'group': XS, 'cols': SeqOf(Name)}
 Groups.abstract = lambda py: tuple(dict(g) for g in py)
 B['group_collections'] = group_collections
